@@ -495,7 +495,13 @@ type pgInstOpt struct {
 	store     *pgStore // request server
 	sock      bool     // socketpair instead of net.Pipe
 	hub       *pgHub
-	slowRead  bool // the collector takes the response stream in 2 KiB pieces, yielding in between: the server's sends last longer
+	slowRead  bool           // the collector takes the response stream in 2 KiB pieces, yielding in between: the server's sends last longer
+	handlers  *sftp.Handlers // request server: these handlers instead of store's
+}
+
+// pgStartHandlers: a request server over the given handlers.
+func pgStartHandlers(h sftp.Handlers, alloc bool, hub *pgHub) (*pgInst, error) {
+	return pgStart(pgInstOpt{reqServer: true, alloc: alloc, hub: hub, handlers: &h})
 }
 
 // pgSlowReader never stops draining; it only stretches the time a server-side Write on net.Pipe takes.
@@ -538,7 +544,13 @@ func pgStart(o pgInstOpt) (*pgInst, error) {
 		if o.maxTx != 0 {
 			ro = append(ro, sftp.WithRSMaxTxPacket(o.maxTx))
 		}
-		rs := sftp.NewRequestServer(c2, o.store.handlers(), ro...)
+		hs := sftp.Handlers{}
+		if o.handlers != nil {
+			hs = *o.handlers
+		} else {
+			hs = o.store.handlers()
+		}
+		rs := sftp.NewRequestServer(c2, hs, ro...)
 		in.srv = rs
 		go func() { err := rs.Serve(); rs.Close(); in.done <- err }()
 	} else {
